@@ -23,6 +23,78 @@ META = {
 CP = 'lrpar::cpctplus::'
 
 
+def strip_by_truncate(facts, b):
+    """(helper body, block in `b` where the strip happens, table ok?) for the form `v.truncate(rposition(|r| r is not a Shift) + 1 or 0)`"""
+    pr = facts.adt('lrpar::parser::ParseRepair')
+    shift_d = [v['discr'] for v in pr['variants'] if v['name'] == 'Shift'][0]
+    cands = [(b, None)]
+    for bb in sorted(b.reachable()):
+        t = b.term(bb)
+        if t['k'] != 'call':
+            continue
+        c = callee_of(t)
+        p_ = (c.get('resolved') or c['path']) if c else None
+        if p_ in facts.bodies and facts.bodies[p_].crate == 'lrpar':
+            cands.append((facts.bodies[p_], bb))
+        for a in t['args']:
+            k = a.get('const')
+            if k and 'fn' in k:
+                p2 = k['fn'].get('resolved') or k['fn']['path']
+                if p2 in facts.bodies:
+                    cands.append((facts.bodies[p2], bb))
+        for st in b.blocks[bb]['stmts']:
+            if st['k'] == 'assign':
+                for o in rv_operands(st['rv']):
+                    k = o.get('const') if isinstance(o, dict) else None
+                    if k and 'fn' in k:
+                        p2 = k['fn'].get('resolved') or k['fn']['path']
+                        if p2 in facts.bodies:
+                            cands.append((facts.bodies[p2], bb))
+    for hb, site in cands:
+        tr = hb.calls_named('truncate')
+        rp = hb.calls_named('rposition')
+        if len(tr) != 1 or len(rp) != 1:
+            continue
+        # the predicate: true iff the element is not a Shift
+        cl = [c for c in facts.closures_of(hb, recursive=False)]
+        okp = False
+        for c in cl:
+            ps = [p for p in Walker(c, facts, max_paths=16).run() if p.end[0] == 'return']
+            rows = set()
+
+            def bv(t):
+                return ('const', 1 - t[2][1]) if isinstance(t, tuple) and t[:2] == ('un', 'Not') and t[2][0] == 'const' and t[2][1] in (0, 1) and c.lty(0) == 'bool' else t
+            for p in ps:
+                p.end = (p.end[0], bv(p.end[1]))
+                dv = [v for cd, v in p.conds if cd[0] == 'discr']
+                if len(dv) == 1 and isinstance(dv[0], int):
+                    rows.add((dv[0] == shift_d, p.end[1]))
+                elif len(dv) == 1 and isinstance(dv[0], tuple) and dv[0][0] == 'ne':
+                    rows.add((shift_d not in dv[0][1], p.end[1]))
+            if rows and all((isshift and r == ('const', 0)) or (not isshift and r == ('const', 1)) for isshift, r in rows) and len(rows) >= 2:
+                okp = True
+        # keep = Some(i) => i + 1, None => 0
+        okk = True
+        nrows = 0
+        for p in Walker(hb, facts, max_paths=64).run():
+            te = p.calls(name='truncate')
+            if not te:
+                continue
+            dv = [v for cd, v in p.conds if cd[0] == 'discr' and is_call(cd[1], 'rposition')]
+            arg = te[0][3][1]
+            if dv == [1]:
+                nrows += 1
+                okk = okk and isinstance(arg, tuple) and arg[0] == 'bin' and arg[1] == 'Add' and arg[3] == ('const', 1) and term_has(arg[2], lambda x: is_call(x, 'rposition'))
+            elif dv == [0]:
+                nrows += 1
+                okk = okk and arg == ('const', 0)
+            else:
+                okk = False
+        st_block = site if site is not None else tr[0][0]
+        return hb, st_block, okp and okk and nrows >= 2
+    return None
+
+
 def r61(facts, res):
     R = 'R6.1'
     b = facts.one(R, 'simplify_repairs', crate='lrpar', name='simplify_repairs')
@@ -30,6 +102,31 @@ def r61(facts, res):
     dedup = [(bb, t) for bb, t in b.calls_named('collect') if 'HashSet' in ' '.join(callee_of(t)['args'])]
     dedup += [(bb, t) for bb, t in b.calls() if cname(t) in ('dedup', 'dedup_by', 'dedup_by_key')]
     sorts = [(bb, t) for bb, t in b.calls() if (cname(t) or '').startswith('sort')]
+    alt = None
+    if not pops:
+        alt = strip_by_truncate(facts, b)
+    if alt is not None:
+        # the strip is `v.truncate(last non-shift + 1)`, possibly in a helper applied to every sequence
+        hb, site, okt = alt
+        if okt:
+            res.ok(R, 'strip-table', loc_of(hb), 'every sequence is cut back to just after its last repair that is not a Shift (rposition + truncate)')
+        else:
+            res.bad(R, 'strip-table', loc_of(hb), 'the sequence is not truncated to exactly one past its last non-Shift repair')
+        if not dedup:
+            res.bad(R, 'dedup', loc_of(b), 'sequences are never de-duplicated (no collection into a set)')
+        if not sorts:
+            res.bad(R, 'sort', loc_of(b), 'sequences are never sorted')
+        if dedup and sorts:
+            d = dedup[0][0]
+            if b.dominates(site, d) and site not in b.reachable([d]):
+                res.ok(R, 'strip-before-dedup', loc_of(b, d), 'all trailing shifts are stripped before sequences pass through the set')
+            else:
+                res.bad(R, 'strip-before-dedup', loc_of(b, d), 'sequences are de-duplicated before trailing shifts are stripped: stripping can make distinct sequences equal again')
+            if b.dominates(d, sorts[0][0]) and d not in b.reachable(b.succs(sorts[0][0])):
+                res.ok(R, 'dedup-before-sort', loc_of(b, sorts[0][0]), 'sorting happens after de-duplication')
+            else:
+                res.bad(R, 'dedup-before-sort', loc_of(b, sorts[0][0]), 'sorting is not performed after de-duplication (set iteration order would destroy it)')
+        return
     if not pops:
         res.bad(R, 'strip', loc_of(b), 'trailing shifts are never stripped')
     if not dedup:
@@ -624,6 +721,46 @@ def r68(facts, res):
     b = bs[0]
     loops = b.loops()
     calls = [(bb, t) for bb, t in b.calls_named('lr_upto') if any(bb in loops[h] for h in loops)]
+    if not calls and not b.calls_named('lr_upto'):
+        # the trial parse lives in a local closure that the candidate loop calls
+        cls = [c for c in facts.closures_of(b, recursive=False) if len(c.calls_named('lr_upto')) == 1]
+        if len(cls) == 1:
+            c = cls[0]
+            # what the closure captures: environment field k -> local of rank_cnds
+            caps = {}
+            for bb, _i, st in b.stmts():
+                if st['k'] == 'assign' and isinstance(st['rv'].get('agg'), dict) and st['rv']['agg'].get('closure') == c.path:
+                    for k, o in enumerate(st['rv']['ops']):
+                        caps[k] = b.op_root(o, through=Body.THROUGH, stop_named=False)[0]
+            called_in_loop = any(bb in loops[h] for h in loops for bb, t in b.calls() if (callee_of(t) or {}).get('resolved') == c.path or cpath(t) == c.path)
+            bad = None
+            end = None
+            n_ = 0
+            for p in Walker(c, facts, max_paths=256).run():
+                for e in p.calls(name='lr_upto'):
+                    n_ += 1
+                    if len(e[3]) < 4:
+                        bad = 'lr_upto is called with %d arguments' % len(e[3])
+                        continue
+                    end = e[3][3]
+                    for x in subterms(end):
+                        if not (isinstance(x, tuple) and x):
+                            continue
+                        if x[0] in ('call', 'icall', 'widen', 'uninit', 'mutated') or (x[0] == 'param' and x[1] != 1):
+                            bad = 'the end point of the trial parse, %s, depends on per-candidate state (%s): candidates are measured against different end points' % (fmt_term(end)[:90], fmt_term(x)[:60])
+                        if x[0] == 'field' and strip_ref(x[1]) in (('deref', ('param', 1)), ('param', 1)):
+                            cl = caps.get(x[2])
+                            if cl is None or not (1 <= cl <= b.arg_count):
+                                bad = 'the end point of the trial parse, %s, uses a captured value that is not an input of rank_cnds' % fmt_term(end)[:90]
+                    if not term_has(end, lambda x: isinstance(x, tuple) and x and x[0] == 'field'):
+                        bad = bad or 'the end point of the trial parse, %s, does not depend on the error position' % fmt_term(end)[:90]
+            if not called_in_loop or not n_:
+                res.lost(R, 'the closure holding the trial parse of rank_cnds is not called from the candidate loop')
+            elif bad:
+                res.bad(R, 'same-end-point', loc_of(c), bad)
+            else:
+                res.ok(R, 'same-end-point', loc_of(c), 'every candidate is test-parsed (in a local closure) up to %s (inputs of rank_cnds and constants only)' % fmt_term(end)[:60])
+            return
     if len(calls) != 1:
         res.lost(R, 'expected one lr_upto call inside the candidate loop of rank_cnds, found %d' % len(calls))
         return
